@@ -2,6 +2,7 @@ use std::any::type_name;
 use std::borrow::Borrow;
 use std::fmt;
 use std::ops::Deref;
+use std::panic::{AssertUnwindSafe, catch_unwind, resume_unwind};
 use std::pin::Pin;
 use std::ptr::NonNull;
 use std::sync::Arc;
@@ -203,11 +204,22 @@ impl Drop for Remover {
             .get_mut(&self.key)
             .expect("if the handle still exists, the inner pool must still exist");
 
-        // SAFETY: The remover controls the shared object lifetime and is the only thing
-        // that can remove the item from the pool. We keep the pool alive for as long as any
-        // handle or remover referencing it exists, so the pool must still exist.
-        unsafe {
-            pool.remove(self.handle);
+        // The object's destructor is user code and may panic. We must not unwind while holding the
+        // pool lock (that would poison it for every other handle and pool clone), so we catch the
+        // panic, release the lock cleanly and only then let the panic continue. The pool completes
+        // its own bookkeeping before it runs the destructor, so its state is consistent either way.
+        let result = catch_unwind(AssertUnwindSafe(|| {
+            // SAFETY: The remover controls the shared object lifetime and is the only thing
+            // that can remove the item from the pool. We keep the pool alive for as long as any
+            // handle or remover referencing it exists, so the pool must still exist.
+            unsafe {
+                pool.remove(self.handle);
+            }
+        }));
+        drop(core);
+
+        if let Err(payload) = result {
+            resume_unwind(payload);
         }
     }
 }
